@@ -76,6 +76,15 @@ theorem C08_dispatch_shape :
     ∧ Gen.fieldOffsetDeclShape = "guint16 struct_offset;" := by
   exact ⟨rfl, rfl, rfl⟩
 
+/-- girparser.c, the two decisions that fix what giroffsets.c sees for a field: start_function (a
+    `<callback>` inside a `<field>`: embedded for record / class fields, the field becomes a gpointer in
+    a union, boxed or interface; model `inlineCallbackField`) and start_type (when a C array typed
+    field is not a pointer; model `arrayFieldIsPointer`). -/
+theorem C08_parser_shapes :
+    Gen.inlineCallbackShape = "case STATE_CLASS_FIELD: case STATE_STRUCT_FIELD: found = (found || strcmp (element_name, \"callback\") == 0); in_embedded_state = ctx->state; break; case STATE_UNION_FIELD: case STATE_BOXED_FIELD: case STATE_INTERFACE_FIELD: if (strcmp (element_name, \"callback\") == 0 && ctx->current_typed && ctx->current_typed->type == G_IR_NODE_FIELD && ((GIrNodeField *)ctx->current_typed)->type == NULL) { ((GIrNodeField *)ctx->current_typed)->type = parse_type (ctx, \"gpointer\"); state_switch (ctx, STATE_PASSTHROUGH); return TRUE; } break;"
+    ∧ Gen.arrayFieldPointerShape = "if (typenode->has_size && ctx->current_typed->type == G_IR_NODE_FIELD) typenode->is_pointer = FALSE; else if (!typenode->has_length && ctx->current_typed->type == G_IR_NODE_FIELD) { const char *actype = find_attribute (\"c:type\", attribute_names, attribute_values); if (actype == NULL || !g_str_has_suffix (actype, \"*\")) typenode->is_pointer = FALSE; }" := by
+  exact ⟨rfl, rfl⟩
+
 /-- The platform facts the other theorems lean on, decided over the measured tables: every value
     type returned by `gi_type_tag_get_ffi_type` has size = alignment = a power of two ≤ 8 (so every
     leaf is a `KnownMember`), pointers are 8/8, all nine probe enums are 4 bytes, the unsigned-capable
@@ -172,6 +181,25 @@ theorem C08_struct_callback (ptr : SA) (size al : Int) (ms : List MemberSA) (hpt
 
 example : structLayout ptrSA [.field ⟨1, 1, true⟩, .callback, .field ⟨1, 1, true⟩] = ⟨24, 8, [0, 16]⟩ := by decide
 
+/-- the union / boxed / interface twin: an inline callback member (`union { void (*cb) (void); ... }`,
+    `<field><callback/></field>`) is a member of pointer size and alignment in EVERY container, and
+    computing it emits no warning — in a record or class through `field->callback`, elsewhere because
+    the parser made it a gpointer field (fix b00e44e; before, the compiler died on it). -/
+theorem C08_union_callback (iface : Str → SA × Bool) (parent : NodeKind) (name : Str) :
+    membersSA iface [inlineCallbackField parent name] = [(.field ptrSA, false)] := by
+  cases parent <;> simp [inlineCallbackField, membersSA, fieldSA, typeSA]
+
+/-- union { gint16 a; void (*cb) (void); }: 8 / 8, both members at 0; the same members as a record: 16 / 8 -/
+example : (computeNode [] ⟨"U".toList, .union,
+    [.field "a".toList false (.basic Gen.tagInt16 false), inlineCallbackField .union "cb".toList], []⟩).layout
+    = ⟨8, 8, [0, 0]⟩ := by decide
+example : (computeNode [] ⟨"B".toList, .boxed,
+    [.field "a".toList false (.basic Gen.tagInt16 false), inlineCallbackField .boxed "cb".toList], []⟩).layout
+    = ⟨16, 8, [0, 8]⟩ := by decide
+example : (computeNode [] ⟨"S".toList, .struct,
+    [.field "a".toList false (.basic Gen.tagInt16 false), inlineCallbackField .struct "cb".toList], []⟩).layout
+    = ⟨16, 8, [0, 8]⟩ := by decide
+
 /-! ### sanity -/
 
 /-- offsets are aligned, never go backwards, members do not overlap and end inside the size;
@@ -263,6 +291,29 @@ theorem C08_unknown_offsets (ptr : SA) (pre post : List MemberSA) (sa : SA) (hba
     intro offs s a e; unfold finishLayout; split <;> rfl
   simp only [structLayout, hf]
   exact this
+
+/-- A flexible array member (`T data[];`: a field array with no fixed size, no length and no pointer
+    c:type) is not a pointer and has no known size — silently, so a typelib is still written — hence
+    (C08_unknown) the structure holding it is recorded with unknown size and alignment (fix 30f920b;
+    before, it was laid out as a pointer).  With a fixed size it is an inline array, with a length or
+    a pointer c:type a pointer. -/
+theorem C08_flexible_array (iface : Str → SA × Bool) (elem : Ty) (n : Int) :
+    typeSA iface (fieldArrayTy false n false false elem) = (SA.fail, false) ∧
+    typeSA iface (fieldArrayTy false n true false elem) = (ptrSA, false) ∧
+    typeSA iface (fieldArrayTy false n false true elem) = (ptrSA, false) ∧
+    typeSA iface (fieldArrayTy false n true true elem) = (ptrSA, false) ∧
+    (∀ hl cp, fieldArrayTy true n hl cp elem = .array false true n elem) := by
+  refine ⟨by simp [fieldArrayTy, arrayFieldIsPointer, typeSA], by simp [fieldArrayTy, arrayFieldIsPointer, typeSA],
+    by simp [fieldArrayTy, arrayFieldIsPointer, typeSA], by simp [fieldArrayTy, arrayFieldIsPointer, typeSA], ?_⟩
+  intro hl cp
+  simp [fieldArrayTy, arrayFieldIsPointer]
+
+/-- struct { gint n; gchar data[]; }: unknown, n keeps offset 0, data gets the unknown marker -/
+example :
+    let r := computeNode [] ⟨"S".toList, .struct,
+      [.field "n".toList false (.basic Gen.tagInt32 false),
+       .field "data".toList false (fieldArrayTy false (-1) false false (.basic Gen.tagInt8 false))], []⟩
+    r.layout = ⟨-1, -1, [0, -1]⟩ ∧ r.warn = false ∧ storeLayout r.layout = ⟨4294967295, 63, [0, 65535]⟩ := by decide
 
 /-- what the markers become in the blobs: 0xFFFF, 0xFFFFFFFF and 63 (all bits of the 6-bit field) -/
 theorem C08_unknown_stored :
